@@ -52,6 +52,32 @@ def columnFilterLoop (isPart : Nat → Bool) (rows : List (List (Option Int))) :
 def columnFilter (isPart : Nat → Bool) (f : Filt) (rows : List (List (Option Int))) : List Bool :=
   columnFilterLoop isPart rows (normalise f) (List.replicate rows.length false)
 
+/-! ### the repaired `_column_filter`: a condition on a partition column is no longer skipped but evaluated PER ROW GROUP
+(`_partition_term`: the row-group pruning's own test on the row group's partition value, one flag repeated over the
+row group's rows) and merged like any other condition -/
+
+/-- `np.repeat([not filter_out_cats(rg, [cond]) for rg in rgs], [rg.num_rows for rg in rgs])` -/
+def partitionTerm (rgSat : Nat → Cond → Bool) (sizes : List Nat) (c : Cond) : List Bool :=
+  (sizes.zipIdx.flatMap fun p => List.replicate p.1 (rgSat p.2 c))
+
+def andPartRG (isPart : Nat → Bool) (rgSat : Nat → Cond → Bool) (sizes : List Nat) (rows : List (List (Option Int))) :
+    List Cond → List Bool → List Bool
+  | [], acc => acc
+  | c :: cs, acc =>
+    if isPart c.col then andPartRG isPart rgSat sizes rows cs (List.zipWith (· && ·) acc (partitionTerm rgSat sizes c))
+    else andPartRG isPart rgSat sizes rows cs (List.zipWith (· && ·) acc (rows.map (evalCond c)))
+
+def columnFilterLoopRG (isPart : Nat → Bool) (rgSat : Nat → Cond → Bool) (sizes : List Nat) (rows : List (List (Option Int))) :
+    List (List Cond) → List Bool → List Bool
+  | [], out => out
+  | g :: gs, out =>
+    columnFilterLoopRG isPart rgSat sizes rows gs
+      (List.zipWith (· || ·) out (andPartRG isPart rgSat sizes rows g (List.replicate rows.length true)))
+
+def columnFilterRG (isPart : Nat → Bool) (rgSat : Nat → Cond → Bool) (sizes : List Nat) (f : Filt)
+    (rows : List (List (Option Int))) : List Bool :=
+  columnFilterLoopRG isPart rgSat sizes rows (normalise f) (List.replicate rows.length false)
+
 /-- `selected.append(sel[start:start+rg.num_rows]); start += rg.num_rows` over the row groups that
     survive pruning; and the same shape inside `read_col` over the pages of a chunk -/
 def sliceSel : List Nat → List Bool → List (List Bool)
